@@ -114,6 +114,8 @@ def main_(prop, tier):
             # undefined anyway, and symbolic values read from the raced location only multiply the thread paths
             rep.extra['handlers/results'] = 'skipped: data race(s) reported by handlers/races'
             continue
+        # every obligation starts from a pristine module: nothing an earlier exploration left in the initial state can leak into it
+        irm = irsym.IRModule(open(os.path.join(d, 'linked.ll')).read())
         mt = irsym_mt.MT(irm, shared_globals=shared, timeout=600 if tier == 'quick' else 3000, max_steps=3000000, races_only=races_only)
         mt.init_state = irm.base_state
         ob = dict(hid='%s/%s' % (prop, label), engine='E2-mt irsym + z3 schedule encoding', bounds=dict(threads=label, shared=demangle(shared), memory_model='sequential consistency for values, C++11 happens-before for races'))
